@@ -20,6 +20,7 @@ structure VmState where
   inRecv : List Bool := []
   outRecv : List Bool := []
   deferred : List Nat := []        -- inputs with a pending `waitRecvI2rw<inp>` deferred instruction
+  phase : List String := []        -- pipelined opcodes whose `Extra_states["pipeline_<op>"]` is 1
 deriving DecidableEq, Repr, Inhabited
 
 namespace Isa
@@ -53,6 +54,18 @@ def binop (op : String) (rs d s : Nat) : Option Nat :=
   else if op = "xnor" then (if smallSize rs then some (m - 1 - (d ^^^ s)) else some d)
   else if op = "not" then (if smallSize rs then some (m - 1 - s) else some d)
   else if op = "mod" then (if smallSize rs then (if s = 0 then none else some (d % s)) else some d)
+  else none
+
+/-- the two-step ("pipelined") integer opcodes addp / multp / divp: the first `Simulate` only sets
+    the phase, the second computes from the registers as they are then and retires -/
+def pipeOps : List String := ["addp", "multp", "divp"]
+
+def pbinop (op : String) (rs d s : Nat) : Option Nat :=
+  let m := 2 ^ rs
+  if ¬ stdSize rs then none                   -- "invalid register size"
+  else if op = "addp" then some ((d + s) % m)
+  else if op = "multp" then some ((d * s) % m)
+  else if op = "divp" then (if s = 0 then none else some (d / s))   -- integer divide by zero panics
   else none
 
 def unop (op : String) (rs x : Nat) : Option Nat :=
@@ -95,6 +108,16 @@ def exec (a : Arch) (progLen : Nat) (op : String) (body : Bits) (s : VmState) : 
       | none => none
       | some v => some { next with regs := s.regs.set kd v }
     | _, _ => none
+  else if op ∈ pipeOps then
+    if op ∈ s.phase then
+      let kd := field body 0 r
+      let ks := field body r r
+      match s.regs[kd]?, s.regs[ks]? with
+      | some d, some sv => match pbinop op a.rsize d sv with
+        | none => none
+        | some v => some { next with regs := s.regs.set kd v, phase := s.phase.erase op }
+      | _, _ => none
+    else some { s with phase := s.phase ++ [op] }
   else if op = "j" then
     let v := field body 0 a.o
     some (if v < progLen then { s with pc := v } else next)
@@ -146,7 +169,7 @@ def exec (a : Arch) (progLen : Nat) (op : String) (body : Bits) (s : VmState) : 
 /-- opcodes with a modelled `Simulate` -/
 def modelled : List String :=
   ["nop", "rset", "inc", "dec", "clr", "add", "mult", "div", "cpy", "and", "or", "xor", "nand", "nor",
-   "xnor", "not", "mod", "j", "jz", "i2r", "r2o", "i2rw", "r2owa"]
+   "xnor", "not", "mod", "j", "jz", "i2r", "r2o", "i2rw", "r2owa", "addp", "multp", "divp"]
 
 /-- `VM.Step` (DelayCounter = 0). `none` = Step returns an error or the Go code panics. -/
 def step (a : Arch) (prog : List Bits) (s : VmState) : Option VmState :=
